@@ -37,7 +37,7 @@ class OffGrid(Exception):
     pass
 
 
-def run_scenario(K: float, sched: dict[int, str], n_grid: int, gdiv: int, mtypes, close_at=None, chatter=False, hello_delay=0.0):
+def run_scenario(K: float, sched: dict[int, str], n_grid: int, gdiv: int, mtypes, close_at=None, chatter=False, hello_delay=0.0, awaited=False):
     """sched: grid index -> 'b' (message before the timers of that instant), 'a' (after), 'ba' (both).
     grid step = K/gdiv.  After n_grid steps the peer is silent; we run on until 7.5K past the end.
     Returns (ops, real_obs, log_entries, info)."""
@@ -81,7 +81,9 @@ def run_scenario(K: float, sched: dict[int, str], n_grid: int, gdiv: int, mtypes
     def observe(enabled=1):
         alive = conn.connection_state is not simnet.ac.CONNECTION_STATE_CLOSED
         pings = sum(1 for (_, ty, _) in net.written() if ty == PING_REQ)
-        timers = sorted(to_ticks(w - t_ref) for w, _ in loop.armed_timers()) if alive else []
+        # (the timeout of an application request that is waiting for its answer is not a keepalive timer)
+        timers = sorted(to_ticks(w - t_ref) for w, lab in loop.armed_timers()
+                        if not (awaited and lab.endswith("handle_timeout"))) if alive else []
         ping_failed = fh.err_class(conn._fatal_exception) == "pingFailed"
         dead = [to_ticks(t - t_ref) for t, _ in stops] if ping_failed else []
         return (f"alive={1 if alive else 0} pings={pings} timers=[{' '.join(map(str, timers))}] "
@@ -129,6 +131,7 @@ def run_scenario(K: float, sched: dict[int, str], n_grid: int, gdiv: int, mtypes
 
     total = n_grid + int(7.5 * gdiv) + 1
     info = {"closed_at": None, "cause": None}
+    calls = []
     for i in range(1, total + 1):
         T = i * (K / gdiv)
         # urgency on the real side: never jump over an armed timer (all deadlines are on the grid by construction)
@@ -146,6 +149,12 @@ def run_scenario(K: float, sched: dict[int, str], n_grid: int, gdiv: int, mtypes
         if chatter and conn.is_connected:
             # the application keeps sending commands: what the CLIENT writes says nothing about the peer being alive
             client.switch_command(1, bool(i % 2))
+        if awaited and conn.is_connected and i % gdiv == 1 and i <= n_grid:
+            # the application waits for an answer the device never gives: the request times out half an interval later -
+            # whether a request was answered says nothing about messages having arrived
+            calls.append(simnet.spawn(loop, conn.send_message_await_response(pb.ListEntitiesRequest(), pb.ListEntitiesDoneResponse,
+                                                                              max(1, gdiv // 2) * (K / gdiv)), f"call{i}"))
+            loop.run_idle()
         if "b" in what:
             msg()
         if close_at == i:
@@ -160,6 +169,7 @@ def run_scenario(K: float, sched: dict[int, str], n_grid: int, gdiv: int, mtypes
     info["alive_at_end"] = alive
     info["fatal"] = fh.err_class(conn._fatal_exception) if conn._fatal_exception else "none"
     info["stops"] = list(stops)
+    info["calls"] = [c.cls() for c in calls]
     info["unhandled"] = len(loop.unhandled)
     net.close()
     return ops, obs, log, info
@@ -212,7 +222,7 @@ def run(ck: Check):
         try:
             # every fifth scenario: the device answers the hello late (by up to three grid steps, capped below the hello timeout)
             hd = [0.0, 0.0, 0.0, 0.0, min(K / gdiv, 7.3), 0.0, 0.0, 0.0, 0.0, min(3 * K / gdiv, 19.7)][si % 10]   # < the 30 s hello timeout
-            ops, obs, log, info = run_scenario(K, sched, n, gdiv, mt, close_at, chatter=(si % 3 == 1), hello_delay=hd)
+            ops, obs, log, info = run_scenario(K, sched, n, gdiv, mt, close_at, chatter=(si % 3 == 1), hello_delay=hd, awaited=(si % 4 == 2))
         except OffGrid as e:
             ck.violation("c10:deadline-off-grid", f"keepalive {K} s, messages at grid steps {sorted(sched)} (step K/{gdiv}): a keepalive / pong "
                          f"timer or the detection instant lies at t={e.args[0]:.6f} s, which is not a multiple of K/{U} = {e.args[1]} s - the ping "
